@@ -64,6 +64,12 @@ func (s *Slice) Apply(inputs []tensor.Tensor) ([]tensor.Tensor, error) {
 		return nil, ops.ErrNotAllAxesInRange(rank, rank)
 	}
 
+	for _, step := range steps {
+		if step < 1 {
+			return nil, ops.ErrInvalidInput("only positive steps are supported", s)
+		}
+	}
+
 	slices := s.constructSlices(starts, ends, steps, axes, rank)
 
 	out, err := data.Slice(slices...)
